@@ -19,6 +19,7 @@ R = {
  "C09-g": (7, True, "", "a word u c u^-1 with |u| >= 2 reaching relator_representative: 3D symbol <1.1:4 3:2 4,3 4,4 3,1 2 3 4:4,2,6 6>"),
  "C20-g": (7, True, "", "IntPartition unite(a, b) with b never seen and a >= b: unite(4, 3) on fresh elements"),
  "C15-g": (7, False, "C13 T3-propagate-single-cut made exact: the only program test between the contains_key lookup and the push of an unlabelled occurrence is that lookup (facts from MIR assertions excluded) - an additional `not already in cuts` conjunct is reported", "a relator containing a generator twice with the same sign whose sub-word in between lies in the candidate subgroup, the repeated edge being the only open one: 30 of 5933 symmetry-reduced versions of the test symbols; sheet number depends on the numbering"),
+ "C17-g": (7, True, "the same edit as C16-e, made independently under C17; reported by the C16 check T9-reglue-pairs (simplify.rs is C16 code)", "a 1-valent vertex reached by the simplifier with op(1, f) != op(2, f) at the far chamber: 13 of 750 small symbols / covers panic, verdicts change under renumbering and dual"),
  "C19-g": (7, True, "", "undirected edge cut with source label > sink label; inside_vertices is then the sink's side"),
 }
 for sid, (rnd, first, strength, needs) in R.items():
